@@ -4,11 +4,14 @@
 package core
 
 import (
+	"bytes"
 	"fmt"
 	"os"
+	"os/exec"
 	"path/filepath"
 	"runtime"
 	"strings"
+	"time"
 
 	"github.com/hknutzen/Netspoc-Approve/go/pkg/device"
 )
@@ -191,4 +194,66 @@ func (s *Scratch) Compare(model string, a, b Files) Outcome {
 // CompareText is Compare with single-file sides.
 func (s *Scratch) CompareText(model, a, b string) Outcome {
 	return s.Compare(model, Files{Main: a}, Files{Main: b})
+}
+
+// CompareBinary runs the built drc binary on the two sides in a process of
+// its own (for inputs that may end in a fatal error which cannot be
+// recovered in-process, e.g. a stack overflow).  Status 2 = the binary died
+// from a runtime panic / fatal error; Status 3 = no end within the timeout.
+func (s *Scratch) CompareBinary(model string, a, b Files, timeout time.Duration) Outcome {
+	if b.Info == "" {
+		b.Info = InfoFor(model)
+	}
+	pa := s.WriteSide("a", a)
+	pb := s.WriteSide("b", b)
+	cmd := exec.Command(filepath.Join(VerifDir, ".build", "bin", "drc"), pa, pb)
+	// a runaway recursion must not eat the machine's memory first
+	cmd.Env = append(os.Environ(), "GOMEMLIMIT=512MiB")
+	var so, se bytes.Buffer
+	cmd.Stdout, cmd.Stderr = &so, &se
+	var o Outcome
+	if err := cmd.Start(); err != nil {
+		o.Status, o.Panic = 2, err.Error()
+		return o
+	}
+	done := make(chan error, 1)
+	go func() { done <- cmd.Wait() }()
+	select {
+	case err := <-done:
+		if ee, ok := err.(*exec.ExitError); ok {
+			o.Status = ee.ExitCode()
+		} else if err != nil {
+			o.Status = 2
+		}
+	case <-time.After(timeout):
+		cmd.Process.Kill()
+		<-done
+		o.Status = 3
+	}
+	o.Stdout, o.Stderr = so.String(), se.String()
+	if o.Status >= 2 || o.Status < 0 {
+		o.Panic = o.Stderr
+		if len(o.Panic) > 600 {
+			o.Panic = o.Panic[:600]
+		}
+		o.Site = "?"
+		for _, l := range strings.Split(se.String(), "\n") {
+			if i := strings.Index(l, "Netspoc-Approve/go/pkg/"); i >= 0 && !strings.Contains(l, "errlog.") && !strings.HasPrefix(l, "\t") {
+				fn := l[i+len("Netspoc-Approve/go/pkg/"):]
+				// strip the argument list: pkg.(*T).method(0x.., {..}) -> pkg.(*T).method
+				if j := strings.LastIndex(fn, "("); j > 0 && !strings.HasPrefix(fn[j:], "(*") {
+					fn = fn[:j]
+				}
+				if j := strings.Index(fn, ".func"); j > 0 {
+					fn = fn[:j]
+				}
+				o.Site = fn
+				break
+			}
+		}
+		if o.Status != 3 {
+			o.Status = 2
+		}
+	}
+	return o
 }
